@@ -63,7 +63,7 @@ def space_cases(ctx, n_sample):
     cases = []
     if ctx.thorough:
         for ts in subsets:
-            for cs in rng.sample(colsets, 3) + [colsets[0], colsets[-1]]:
+            for cs in rng.sample(colsets, 6) + [colsets[0], colsets[-1]]:
                 cases.append((ts, cs))
     else:
         must = [s for s in subsets if len(s) == 1] + [list(REPRESENTABLE)]
